@@ -26,10 +26,10 @@ def logical_document(names=("OBJ", "EXP")):
         structs=[(a, [("id", "int", None), ("mag", "float", 2), ("name", "char", "var"), ("flag", "COLOR", None), ("tags", "char", (2, 5))]),
                  (b, [("n", "long", None), ("ratio", "double", None), ("label", "char", 8)])],
         rows=[(a, [1, [1.5, -2.25], "alpha", "RED", ["x", "yy"]]),
-              (b, [10, 0.125, "first"]),
+              (b, [2 ** 62 + 1, 0.125, "first"]),
               (a, [2, [0.0, 3.0], "be ta", "BLUE", ["", "q#r"]]),
               (a, [3, [7.0, 8.0], "g", "GREEN", ["a b", "z"]]),
-              (b, [20, -4.5, "se cond"])])
+              (b, [-(2 ** 53) - 1, -4.5, "se cond"])])
 
 
 def render(doc, opts, rng_bits=0):
